@@ -146,7 +146,7 @@ def run (c : Case) : CaseOut := Id.run do
         | "agg" => aggResults rows
         | "ses" => sesResults rows
         | "cnt" => cntResults n rows
-        | "fcnt" => cntResults n rows   -- the row ops carry the tuple of function values
+        | "fcnt" => if cfgGet c "win" "cnt" == "glb" then glbResults n rows else cntResults n rows   -- the row ops carry the tuple of function values
         | _ => glbResults n rows
       obs := obs ++ [sortLines (res.map resultLine)]
       -- the oracle: the property evaluated on the implementation's result rows
